@@ -93,3 +93,33 @@ Example C10_nonvacuous :
   dc [pos; int_] 5%Z = DRun 0 /\ dc [pos; int_] (-5)%Z = DRun 2 /\ dc [pos; both; int_] 5%Z = DAmbig [0; 3] /\
   dc [pos; both; int_] 2%Z = DRun 0.
 Proof. vm_compute. repeat split; reflexivity. Qed.
+
+(* ---- which value-dependent methods are "otherwise unordered": parametrised conditions and their wildcards ---- *)
+From OvldV Require Import Gen.Leaf Proofs.LeafDep.
+
+(* tie to /repo: FuncDependentType.__lt__ as regenerated from the current source on every run (Gen/Leaf.v) is the
+   comparison the model's type order uses *)
+Theorem C10_leaf_wildcards : forall a b, fn_like a = true -> dep_lt a b = dep_lt_src (any_flags a) (any_flags b).
+Proof. exact dep_lt_agree. Qed.
+Print Assumptions C10_leaf_wildcards.
+
+(* two parametrised conditions on the same bound: the order between them is exactly what the wildcards say *)
+Theorem C10_same_bound_order : forall sub hasm chk fresh n a b, fn_like a = true -> is_dep b = true -> ty_eqb a b = false ->
+  tord sub hasm chk fresh n (dep_bound a) (dep_bound b) = Some SAME ->
+  tord sub hasm chk fresh (S n) a b = Some (if dep_lt a b then LESS else if dep_lt b a then MORE else NONE).
+Proof. exact tord_same_bound. Qed.
+Print Assumptions C10_same_bound_order.
+
+(* ... and they say: strictly more specific exactly when the other has a wildcard wherever this one has one, and one more
+   somewhere (same number of parameters) -- slot by slot, not by counting *)
+Theorem C10_wildcards_slotwise : forall a b, fn_like a = true ->
+  dep_lt a b = Nat.eqb (length (any_flags a)) (length (any_flags b)) && covers (any_flags a) (any_flags b) && more_somewhere (any_flags a) (any_flags b).
+Proof. exact dep_lt_slotwise. Qed.
+Print Assumptions C10_wildcards_slotwise.
+
+(* crossing wildcards order neither way: such methods are unordered, and both holding is the ambiguity of C10_count_exact *)
+Theorem C10_wildcards_crossing_unordered : forall a b, fn_like a = true -> fn_like b = true ->
+  more_somewhere (any_flags a) (any_flags b) = true -> more_somewhere (any_flags b) (any_flags a) = true ->
+  dep_lt a b = false /\ dep_lt b a = false.
+Proof. exact dep_lt_crossing. Qed.
+Print Assumptions C10_wildcards_crossing_unordered.
